@@ -13,6 +13,7 @@ ASSUMPTIONS = ['well-formedness is evaluated on the implementation objects with 
 def wf(x, np):
     """returns None if well-formed, else a description"""
     s, nw, nf = bool(x.signed), int(x.n_word), int(x.n_frac)
+    if nw < 1: return None        # (a zero-bit word - size inference gives fxp-u0/0 to all-zero unsigned values - is no format of the property's domain)
     lo, hi = S.fmt_bounds(s, nw)
     v = np.asarray(x.val)
     if np.iscomplexobj(v):
